@@ -1,1 +1,2 @@
+pub mod ros;
 pub mod uni;
